@@ -10,7 +10,7 @@ import numpy as np
 from hypothesis import strategies as st
 
 from vlib import arrays as A
-from vlib.runner import Part, R
+from vlib.runner import Part, R, make_sweep
 
 PROPERTY = "C05"
 RULE = ("Hypothesis draws shape (1-4 dims, lengths 1-9, axis order permuted), axes (None or a non-empty subset in any "
@@ -283,4 +283,35 @@ def check_case(case):
     return r
 
 
-PARTS = [Part("fft", check_case, {"quick": 16000, "thorough": 400000}, strategy=st_case)]
+def sweep_configs():
+    """finite sub-domain enumerated completely: every 1-D length 1..64 x center x norm; every centred (n -> m) resize
+    pair 1..24 x norm; 2-D [n,3] / [3,n] with a single (also negative) axis for n = 1..24."""
+    out = []
+
+    def case(shape, axes, center, norm, oshape, dtype="complex128"):
+        return {"x": {"k": "g", "shape": shape, "dtype": dtype, "seed": 1000 + 7 * sum(shape)}, "axes": axes, "center": center,
+                "norm": norm, "oshape": oshape, "axes_tuple": False, "oshape_tuple": False, "yseed": 5 + sum(shape)}
+    for n in range(1, 65):
+        for center in (True, False):
+            for norm in ("ortho", None):
+                out.append(case([n], None, center, norm, None))
+    for n in range(1, 25):
+        for m in range(1, 25):
+            if m != n:
+                for norm in ("ortho", None):
+                    out.append(case([n], None, True, norm, [m]))
+        for center in (True, False):
+            out.append(case([n, 3], [0], center, "ortho", None))
+            out.append(case([3, n], [-1], center, "ortho", None, "complex64"))
+            out.append(case([n, 3], [-2], center, None, None))
+    return out
+
+
+def extra_coverage(tier):
+    return {"exhaustive_subdomains": ["fft/ifft: all 1-D lengths 1..64 x center x norm, all centred resize pairs (n -> m), n, m in "
+                                      "1..24, x norm, and 2-D single-axis transforms for n in 1..24 (%d configurations, part 'lengths')"
+                                      % len(sweep_configs())]}
+
+
+PARTS = [Part("fft", check_case, {"quick": 16000, "thorough": 400000}, strategy=st_case),
+         make_sweep("lengths", sweep_configs, check_case)]
